@@ -228,15 +228,27 @@ template <class V, class T, int N> static void normalize_case (vp::Ctx& c, const
         case 1: // null except one smallest-magnitude component
             for (int i = 0; i < N; ++i)
                 v[i] = s.coin () ? (T) 0 : -(T) 0;
-            v[(int) s.below (N)] = (s.coin () ? -1 : 1) * (T) s.range (1, 3) * KT<T>::dmin ();
+        {
+            // (one draw per statement: the two compilers order operands differently)
+            T   mag = (T) s.range (1, 3) * KT<T>::dmin ();
+            int k   = (int) s.below (N);
+            v[k]    = s.coin () ? -mag : mag;
+        }
             break;
         case 2: // subnormal components (some zero)
             for (int i = 0; i < N; ++i)
-                v[i] = s.coin () ? (T) 0 : (T) ((s.coin () ? -1 : 1) * gen::from_bits<T> ((typename gen::Bits<T>::U) s.bits (gen::Bits<T>::mant)));
+            {
+                T mag = gen::from_bits<T> ((typename gen::Bits<T>::U) s.bits (gen::Bits<T>::mant));
+                if (s.coin ()) mag = 0;
+                v[i] = s.coin () ? -mag : mag;
+            }
             break;
         case 3: // squares underflow
             for (int i = 0; i < N; ++i)
-                v[i] = (s.coin () ? -1 : 1) * mant_exp<T> (s, KT<T>::emin () / 2 - (int) s.below (40));
+            {
+                T mag = mant_exp<T> (s, KT<T>::emin () / 2 - (int) s.below (40));
+                v[i]  = s.coin () ? -mag : mag;
+            }
             break;
         case 4:
             for (int i = 0; i < N; ++i)
@@ -248,17 +260,27 @@ template <class V, class T, int N> static void normalize_case (vp::Ctx& c, const
             break;
         case 6: // length2 overflows
             for (int i = 0; i < N; ++i)
-                v[i] = (s.coin () ? -1 : 1) * mant_exp<T> (s, KT<T>::emax () - (int) s.below (30));
+            {
+                T mag = mant_exp<T> (s, KT<T>::emax () - (int) s.below (30));
+                v[i]  = s.coin () ? -mag : mag;
+            }
             break;
         case 7: // one NaN / inf
             for (int i = 0; i < N; ++i)
                 v[i] = gen::nice<T> (s);
-            v[(int) s.below (N)] = s.coin () ? std::numeric_limits<T>::quiet_NaN () : (T) ((s.coin () ? -1 : 1) * std::numeric_limits<T>::infinity ());
+        {
+            int k   = (int) s.below (N);
+            T   bad = s.coin () ? std::numeric_limits<T>::quiet_NaN () : std::numeric_limits<T>::infinity ();
+            v[k]    = s.coin () ? -bad : bad;
+        }
             break;
         case 8: // around the 2*min threshold of length2
             for (int i = 0; i < N; ++i)
                 v[i] = s.coin () ? (T) 0 : mant_exp<T> (s, KT<T>::emin () / 2 - 8 - (int) s.below (20));
-            v[(int) s.below (N)] = bump (std::sqrt ((T) 2 * KT<T>::min ()), s.range (-8, 8));
+        {
+            int k = (int) s.below (N);
+            v[k]  = bump (std::sqrt ((T) 2 * KT<T>::min ()), s.range (-8, 8));
+        }
             break;
         default: // small integers (the null vector appears with probability 7^-N)
             for (int i = 0; i < N; ++i)
@@ -443,7 +465,10 @@ static void vec3d_from_vec4f_case (vp::Ctx& c)
 {
     vp::Src& s = c.s;
     float    w = s.chance (80) ? 0.0f : gsigned<float> (s);
-    V4f      v4 (gsigned<float> (s), gen::nice<float> (s), gsigned<float> (s), w);
+    float    x0 = gsigned<float> (s);
+    float    x1 = gen::nice<float> (s);
+    float    x2 = gsigned<float> (s);
+    V4f      v4 (x0, x1, x2, w);
     VP_NOTE (c, "V3d(V4f) v4=" << vstr (v4, 4));
     c.label (VL_MIXED);
     V3d C (0.0);
@@ -1310,7 +1335,11 @@ template <class T> static void frustum_screen_case (vp::Ctx& c, const char* tn)
     };
     // ---- localToScreenExc (protected; reached through a deriving class)
     {
-        Vec2<T> q (coord (p.l, p.r, p.standard && s.coin ()), coord (p.b, p.t, p.standard && s.coin ()));
+        bool    ox = p.standard && s.coin ();
+        T       qx = coord (p.l, p.r, ox);
+        bool    oy = p.standard && s.coin ();
+        T       qy = coord (p.b, p.t, oy);
+        Vec2<T> q (qx, qy);
         VP_NOTE (c, tn << " " << fstr (p) << " local point " << vstr (q, 2));
         if (cancels) c.label (FL_F);
         // computed numerator fl(fl(lo - 2x) + hi): |error| <= 2 eps (|lo| + 2|x| + |hi|); bound used: 4 eps (...)
@@ -1358,7 +1387,9 @@ template <class T> static void frustum_screen_case (vp::Ctx& c, const char* tn)
         if (qabs ((quad) v * n) >= KT<T>::qmax4 ()) v = 0;
         return v;
     };
-    Vec3<T> P (pcoord (), pcoord (), z);
+    T       Px = pcoord ();
+    T       Py = pcoord ();
+    Vec3<T> P (Px, Py, z);
     T       radius = s.coin () ? gen::nice<T> (s) : gsigned<T> (s);
     VP_NOTE (c, "point " << vstr (P, 3) << " radius " << radius);
     if (z == 0) c.label (FL_E);
@@ -1701,7 +1732,7 @@ template <class T> static void frustum_set_case (vp::Ctx& c, const char* tn)
             case 0: return (T) 0;
             case 1: return -(T) 0;
             case 2: return (T) s.uniform (0.05, 3.0);
-            case 3: return (s.coin () ? -1 : 1) * KT<T>::dmin ();
+            case 3: return s.coin () ? -KT<T>::dmin () : KT<T>::dmin ();
             case 4: return gen::nice<T> (s);
             default: return gsigned<T> (s);
         }
@@ -2228,7 +2259,11 @@ template <class T, class V, int N> static void zeroscale_case (vp::Ctx& c, const
 {
     vp::Src& s   = c.s;
     T        scl = gsigned<T> (s);
-    if (s.chance (48)) scl = (s.coin () ? -1 : 1) * pow2<T> ((int) s.range (KT<T>::esub (), 2));
+    if (s.chance (48))
+    {
+        scl = pow2<T> ((int) s.range (KT<T>::esub (), 2));
+        if (s.coin ()) scl = -scl;
+    }
     T    as = scl < 0 ? -scl : scl;
     V    row;
     bool boundary = false;
